@@ -3,7 +3,7 @@
    makegammas tables as data, pixel-level mode synthesis), tied to aotools/functions/zernike.py by the
    correspondence check. *)
 From Coq Require Import ZArith QArith Reals List.
-Require Import AOV.base.Num AOV.model.Zernike AOV.proofs.C12_proofs.
+Require Import AOV.base.Num AOV.base.NumR AOV.model.Pupil AOV.model.Zernike AOV.proofs.C12_proofs AOV.proofs.C12_rest.
 Import ListNotations.
 Local Open Scope Z_scope.
 
@@ -48,6 +48,56 @@ Theorem C12_gamma_x_real_derivative_bounded : forall nzrad, (nzrad <= 12)%nat ->
     (rsum (map (fun j => (gamR (gamx_entry (gam_nm nzrad) i j) * ZR (Z.of_nat (S j)) x y)%R) (seq 0 (length (gam_nm nzrad))))).
 Proof. exact gamma_x_R_bounded. Qed.
 Print Assumptions C12_gamma_x_real_derivative_bounded.
+
+(* ---- generated modes (pixel level, real arithmetic) ---- *)
+Local Close Scope Z_scope.
+Local Open Scope R_scope.
+(* modes vanish outside the inscribed pupil; on the reals the pupil mask and the "r <= 1" clip coincide *)
+Theorem C12_modes_vanish_outside_the_pupil : forall G K jn N rot i j, (i < N)%nat -> (j < N)%nat ->
+  circle_px (ROps G K) (IZR (Z.of_nat N) / 2) N 0 0 true i j = false \/
+  1 < sqrt (zcoord (ROps G K) N j * zcoord (ROps G K) N j + zcoord (ROps G K) N i * zcoord (ROps G K) N i) ->
+  nth j (nth i (zernike_noll (ROps G K) jn N rot) []) 0 = 0.
+Proof. exact zernike_noll_outside. Qed.
+Print Assumptions C12_modes_vanish_outside_the_pupil.
+
+Theorem C12_piston_is_one_inside_the_pupil : forall G K N rot i j, (i < N)%nat -> (j < N)%nat ->
+  circle_px (ROps G K) (IZR (Z.of_nat N) / 2) N 0 0 true i j = true ->
+  nth j (nth i (zernike_noll (ROps G K) 1 N rot) []) 0 = 1.
+Proof. exact zernike_noll_piston. Qed.
+
+(* unit RMS over the pupil under the rms normalisation (the pupil is never empty for N >= 1) ... *)
+Theorem C12_unit_rms_under_rms_normalisation : forall G K N z, (1 <= N)%nat ->
+  0 < nsum (ROps G K) (map (nsqr (ROps G K)) (flat2 z)) ->
+  0 < npup G K N /\
+  sqrt (nsum (ROps G K) (map (nsqr (ROps G K)) (flat2 (norm_rms (ROps G K) N z))) / npup G K N) = 1.
+Proof.
+  intros G K N z HN Hs. split; [apply npup_pos; exact HN|].
+  apply norm_rms_unit_sqrt; [apply npup_pos; exact HN|exact Hs].
+Qed.
+Print Assumptions C12_unit_rms_under_rms_normalisation.
+
+(* ... and unit peak-to-valley under the p2v normalisation, whenever the mode is not constant over the array *)
+Theorem C12_unit_peak_to_valley_under_p2v_normalisation : forall G K z,
+  fold_left (nmax (ROps G K)) (flat2 z) (hd 0 (flat2 z)) <> fold_left (nmin (ROps G K)) (flat2 z) (hd 0 (flat2 z)) ->
+  let f' := flat2 (norm_p2v (ROps G K) z) in
+  fold_left (nmax (ROps G K)) f' (hd 0 f') - fold_left (nmin (ROps G K)) f' (hd 0 f') = 1.
+Proof. exact norm_p2v_unit. Qed.
+
+(* an array built from an index list = the matching slices of the array built from a count (any carrier, any norm) *)
+Theorem C12_array_from_list_is_slices_of_array_from_count : forall T (O : NumOps T) js J N norm rot k,
+  Forall (fun j => (1 <= j <= Z.of_nat J)%Z) js -> (k < length js)%nat ->
+  nth k (zernike_array_list O js N norm rot) [] = nth (Z.to_nat (nth k js 0%Z) - 1) (zernike_array_count O J N norm rot) []
+  /\ length (zernike_array_count O J N norm rot) = J.
+Proof. intros; split; [apply array_list_is_slices_of_array_count; assumption|apply zernike_array_count_length]. Qed.
+
+(* a phase built from coefficients is that linear combination of the modes *)
+Theorem C12_phase_is_the_linear_combination : forall G K coeffs J N rot i j, length coeffs = J -> (i < N)%nat -> (j < N)%nat ->
+  nth j (nth i (phase_from_zernikes (ROps G K) coeffs N rot) []) 0
+  = fold_right Rplus 0 (map (fun k => nth j (nth i (zernike_noll (ROps G K) (Z.of_nat (S k)) N rot) []) 0 * nth k coeffs 0) (seq 0 J)).
+Proof. exact phase_is_linear_combination. Qed.
+Print Assumptions C12_phase_is_the_linear_combination.
+Local Close Scope R_scope.
+Local Open Scope Z_scope.
 
 Example C12_nonvacuous : valid_nm 4 (-2) /\ zern_index 13 = (4, -2) /\ noll_of_nm 4 (-2) = 13.
 Proof. repeat split; try reflexivity; cbv; intros; discriminate. Qed.
